@@ -221,7 +221,7 @@ func NewSubst(r *rand.Rand, v *Vector) Subst {
 	return s
 }
 
-func (s Subst) plain(x string) string {
+func (s Subst) Plain(x string) string {
 	return tokRE.ReplaceAllStringFunc(x, func(t string) string {
 		if v, ok := s[t]; ok {
 			return v
@@ -231,7 +231,7 @@ func (s Subst) plain(x string) string {
 }
 
 // jsonText substitutes inside JSON text: values are JSON-escaped.
-func (s Subst) jsonText(x []byte) []byte {
+func (s Subst) JSONText(x []byte) []byte {
 	esc := func(v string) string {
 		b, _ := json.Marshal(v)
 		return string(b[1 : len(b)-1])
@@ -491,13 +491,13 @@ func Run(v *Vector, r *rand.Rand, vecIdx, conc int, framed bool) Rec {
 	}
 	pid := Gen(r, pidtok)
 	s["<PID>"] = pid
-	line := s.plain(v.Line)
+	line := s.Plain(v.Line)
 	rec := Rec{K: "vec", Form: v.Form, Fam: v.Fam, Emits: v.Emits, Pid: pid, Vec: vecIdx, Conc: conc,
 		LineLen: len(line), Pad: 1 + r.Intn(3)}
 	rec.PidInt, _ = strconv.Atoi(pid)
 	if v.Event != nil {
-		rec.Event = s.jsonText(v.Event)
-		rec.Login = s.jsonText(v.Login)
+		rec.Event = s.JSONText(v.Event)
+		rec.Login = s.JSONText(v.Login)
 		rec.Ctr = v.Counter
 	} else {
 		rec.Event = json.RawMessage("{}")
